@@ -1,5 +1,47 @@
-(* placeholder until NextProofs lands *)
-From Pcfg Require Import ProbAlg F64.
-Theorem C02_F64_laws_available : forall a b : P F64, okb a = true -> okb b = true -> ple a b = true \/ ple b a = true.
-Proof. exact (ple_total F64). Qed.
-Print Assumptions C02_F64_laws_available.
+(* C02 - run to exhaustion, every pre-terminal exactly once.  Theorems only. *)
+From Coq Require Import List Bool Sorting.Permutation Floats.
+From Pcfg Require Import ProbAlg F64 Next NextSpec NextProofs NextFacts.
+
+Theorem C02_exactly_once :
+  forall (A : palg) (rs : ruleset A), wf rs -> forall pop, pop_ok_okb pop ->
+    Permutation (emitted (run pop rs (total rs) (start rs))) (all_preterminals rs) /\
+    pending (run pop rs (total rs) (start rs)) = nil.
+Proof. exact (fun A rs H pop => C02_exactly_once_okb rs H pop). Qed.
+
+(* what the implementation's dictionaries show (no ghost tag): duplicates of a
+   base-structure line are counted with multiplicity *)
+Theorem C02_exactly_once_keys :
+  forall (A : palg) (rs : ruleset A), wf rs -> forall pop, pop_ok_okb pop ->
+    Permutation (map key (emitted (run pop rs (total rs) (start rs)))) (map key (all_preterminals rs)).
+Proof. exact (fun A rs H pop => C02_exactly_once_keys_okb rs H pop). Qed.
+
+Theorem C02_no_early_exhaustion :
+  forall (A : palg) (rs : ruleset A), wf rs -> forall pop n, pop_ok_okb pop ->
+    n <= total rs -> length (emitted (run pop rs n (start rs))) = n.
+Proof. exact (fun A rs H pop n => C02_no_early_exhaustion_okb rs H pop n). Qed.
+
+(* every intermediate state of the queue: nothing is held twice *)
+Theorem C02_frontier_nodup :
+  forall (A : palg) (rs : ruleset A), wf rs -> forall pop n, pop_ok_okb pop ->
+    NoDup (emitted (run pop rs n (start rs)) ++ pending (run pop rs n (start rs))).
+Proof. exact (fun A rs H pop n => C02_frontier_nodup_okb rs H pop n). Qed.
+
+(* the adoption rule: exactly one parent adopts (ties included) *)
+Theorem C02_adopter_unique :
+  forall (A : palg) (rs : ruleset A) c p1 p2, adopts rs p1 c -> adopts rs p2 c -> p1 = p2.
+Proof. exact (fun A rs c p1 p2 => adopts_unique rs p1 p2 c). Qed.
+
+Theorem C02_binary64 :
+  forall rs : ruleset F64, wfb rs = true ->
+    Permutation (emitted (run pop_first_max rs (total rs) (start rs))) (all_preterminals rs) /\
+    pending (run pop_first_max rs (total rs) (start rs)) = nil.
+Proof.
+  exact (fun rs H => C02_exactly_once_okb rs (wfb_wf rs H) pop_first_max (@pop_first_max_ok_partial F64)).
+Qed.
+
+Theorem C02_hypotheses_satisfiable : wf demo_rs /\ total demo_rs = 44.
+Proof. exact (conj demo_wf demo_total). Qed.
+
+Print Assumptions C02_exactly_once.
+Print Assumptions C02_frontier_nodup.
+Print Assumptions C02_binary64.
